@@ -460,9 +460,11 @@ def main() -> int:
     lines += py_tables()
     lines += py_snapshot_layout()
     lines += rs_tables()
-    lines.append("")
-    lines.append(f"Definition tables_source_digest : string := {cstr(digest.hexdigest())}.")
     write_if_changed(VERIF / "coq" / "Gen" / "Tables.v", "\n".join(lines) + "\n")
+    # the digest of the files that were read goes beside the build, not into Tables.v: an edit that leaves every table
+    # unchanged must not force the proofs over the tables to be rebuilt
+    (VERIF / ".build").mkdir(exist_ok=True)
+    (VERIF / ".build" / "tables_source_digest.txt").write_text(digest.hexdigest() + "\n")
     return 0
 
 
